@@ -1015,10 +1015,8 @@ Proof.
   intros Ha Wg Hn R.
   pose proof (run_inv o keys file content evs _ _ Ha Hn (init_inv file content groups Wg) R) as I.
   destruct I as [Wf Id Nu Fi Ns Lg Um Re].
-  unfold consistent. apply existsb_exists. exists (blocks_of_store (s_store st)).
-  split; [apply reach_run_log; exact Re|].
-  unfold final_ok. rewrite has_sort_entries by assumption.
-  rewrite (file_content_blocks file) by assumption. apply str_eqb_refl.
+  rewrite <- (file_content_blocks file) by assumption.
+  apply reach_consistent; [exact Re|apply has_sort_entries; assumption].
 Qed.
 
 (* ---------- the bytes on disk ---------- *)
@@ -1156,12 +1154,14 @@ Proof.
   unfold bind. destruct (step o keys e st); [apply IH|reflexivity].
 Qed.
 
-(* after a history that ends with a save, the bytes on disk are the old bytes with
-   the logged actions applied *)
-Theorem disk_consistent_with_log o keys file content groups evs st :
+(* after a history that ends with a save, the bytes on disk are the bytes of a state
+   that the log leads to *)
+Lemma disk_reach o keys file content groups evs st :
   o_autofix o = true -> wf_groups content groups -> Forall no_sort_event evs ->
   run o keys (evs ++ [ESave]) (init_state file groups) = Ok st ->
-  consistent content (entries_of file (s_log st)) (disk_after file content None (s_ops st)) = true.
+  has_sort (entries_of file (s_log st)) = false /\
+  exists blocks, reach (init_blocks content) (entries_of file (s_log st)) blocks /\
+                 flat_blocks blocks = disk_after file content None (s_ops st).
 Proof.
   intros Ha Wg Hn R. rewrite run_app in R. unfold bind in R.
   destruct (run o keys evs (init_state file groups)) as [s1|] eqn:R1; [|discriminate].
@@ -1169,17 +1169,30 @@ Proof.
   { constructor; cbn; [constructor| |reflexivity].
     rewrite mk_lines_raws. destruct Wg as [Hc _]. rewrite Hc. apply phys_lines_concat. }
   destruct (run_both_inv o keys file content evs _ _ Ha Hn (init_inv file content groups Wg) D0 R1) as [I1 [P1 Rw1 Cl1]].
-  pose proof (save_consistent_with_log o keys file content groups evs s1 Ha Wg Hn R1) as C.
   cbn [run step bind] in R.
   pose proof (save_ops_single o file (s_store s1) Ha (inv_file _ _ _ I1)) as S.
   destruct (save o (s_store s1)) as [ops b]. cbn [fst] in S. subst ops.
   inversion R; subst st. clear R. cbn [s_log s_ops].
+  split; [apply has_sort_entries; exact (inv_nosort _ _ _ I1)|].
+  exists (blocks_of_store (s_store s1)). split; [exact (inv_reach _ _ _ I1)|].
+  rewrite (file_content_blocks file) by (apply I1).
   rewrite disk_after_paired by exact P1.
   destruct (existsb line_modified (s_store s1)) eqn:M.
-  - cbn [disk_after]. rewrite !str_eqb_refl. cbn [andb]. exact C.
+  - cbn [disk_after]. rewrite !str_eqb_refl. reflexivity.
   - cbn [disk_after]. rewrite (Cl1 eq_refl).
-    rewrite (unmodified_content file (s_store s1) (inv_file _ _ _ I1) (inv_unmod _ _ _ I1) M), Rw1 in C.
-    exact C.
+    rewrite (unmodified_content file (s_store s1) (inv_file _ _ _ I1) (inv_unmod _ _ _ I1) M). exact Rw1.
+Qed.
+
+(* after a history that ends with a save, the bytes on disk are the old bytes with
+   the logged actions applied *)
+Theorem disk_consistent_with_log o keys file content groups evs st :
+  o_autofix o = true -> wf_groups content groups -> Forall no_sort_event evs ->
+  run o keys (evs ++ [ESave]) (init_state file groups) = Ok st ->
+  consistent content (entries_of file (s_log st)) (disk_after file content None (s_ops st)) = true.
+Proof.
+  intros Ha Wg Hn R.
+  destruct (disk_reach o keys file content groups evs st Ha Wg Hn R) as (Hs & blocks & Re & <-).
+  apply reach_consistent; assumption.
 Qed.
 
 (* ---------- nothing changes without a log line ---------- *)
